@@ -234,8 +234,10 @@ class Executor(object):
                     inst = None
                     if isinstance(G, tuple):
                         G, inst = G        # (forall lemma, terms to instantiate it at)
-                    self.obls.append(Obligation('%s:%s:cut%d' % (self.k.qualname, name, i + 1), list(assumptions), G,
-                                                ('lemma',), self.k.qualname, line))
+                    if not any(z3.eq(G, a_) for a_ in assumptions):
+                        # (a cut that is literally one of the assumptions needs no proof)
+                        self.obls.append(Obligation('%s:%s:cut%d' % (self.k.qualname, name, i + 1), list(assumptions), G,
+                                                    ('lemma',), self.k.qualname, line))
                     assumptions = assumptions + [G]
                     cuts_only.append(G)
                     if inst is not None:
